@@ -7,6 +7,7 @@ import (
 
 	"verifsim/kit"
 	"verifsim/mgmtsim"
+	"verifsim/schedsim"
 	"verifsim/enginesim"
 	"verifsim/facesim"
 	"verifsim/fwsim"
@@ -35,6 +36,8 @@ func TestSim(t *testing.T) {
 		kit.Drive(t, facesim.StreamEngine{}, a)
 	case "mgmtsim":
 		kit.Drive(t, mgmtsim.Engine{}, a)
+	case "schedsim":
+		kit.Drive(t, schedsim.Engine{}, a)
 	case "fwsim":
 		kit.Drive(t, fwsim.Engine{}, a)
 	case "tablesim":
